@@ -169,19 +169,16 @@ impl Format for UseTree {
                     Self::close_curly_brace(formatted_code, formatter)?;
                 }
             }
-            Self::Name { name } => write!(formatted_code, "{}", name.as_str())?,
+            // Identifiers are formatted via `Ident::format`, which keeps the `r#` of raw identifiers.
+            Self::Name { name } => name.format(formatted_code, formatter)?,
             Self::Rename {
                 name,
                 as_token: _,
                 alias,
             } => {
-                write!(
-                    formatted_code,
-                    "{} {} {}",
-                    name.as_str(),
-                    AsToken::AS_STR,
-                    alias.as_str(),
-                )?;
+                name.format(formatted_code, formatter)?;
+                write!(formatted_code, " {} ", AsToken::AS_STR)?;
+                alias.format(formatted_code, formatter)?;
             }
             Self::Glob { star_token: _ } => {
                 write!(formatted_code, "{}", StarToken::AS_STR)?;
@@ -191,12 +188,8 @@ impl Format for UseTree {
                 double_colon_token: _,
                 suffix,
             } => {
-                write!(
-                    formatted_code,
-                    "{}{}",
-                    prefix.as_str(),
-                    DoubleColonToken::AS_STR,
-                )?;
+                prefix.format(formatted_code, formatter)?;
+                write!(formatted_code, "{}", DoubleColonToken::AS_STR)?;
                 suffix.format(formatted_code, formatter)?;
             }
             Self::Error { .. } => {
